@@ -434,9 +434,9 @@ def run(ctx, rep) -> None:
                     continue
                 kind, accept = ACC[e.get("cls")]
                 idf = "task_id" if kind == "task" else "stage_id"
-                if e.get(idf) != f"message.{idf}":
-                    continue
-                if kind == "stage" and e.get("stage_id") != "message.stage_id":
+                # the handler's own entity: addressed as message.<id>, or through the object read for that id (`stage.id` of the own stage)
+                own_ids = {f"message.{idf}"} | ({f"{oid}.id" for (k, m, oid) in owns if k == "stage"} if kind == "stage" else set())
+                if str(e.get(idf)) not in own_ids:
                     continue
                 # the entity as stored by this commit: only objects (or stages whose tasks) this commit stores
                 stored_oids = [str(x.get("oid")) for x in c.effects if x.kind == "store_stage"]
